@@ -17,6 +17,10 @@ const id = "C12"
 // cache entry in place, so a later GC evicts chunks that the upload stored
 const sigUpOverCache = "C12/upload-over-cached-file-stays-collectable"
 
+// known-finding signature: unpinning a locally uploaded file enters it into the cache (gc) index,
+// so a later GC run deletes chunks stored by local upload
+const sigUnpinUploaded = "C12/unpin-of-uploaded-file-makes-it-collectable"
+
 var witnessMode bool
 
 var kinds = []string{"upload", "upload", "fetch", "fetch", "fetch", "fetch", "fetch", "pin", "pin", "unpin", "read", "gc", "gc", "gc", "gc", "delete", "restart"}
@@ -36,7 +40,21 @@ func run(c nlhist.Case) (sig string, err error, st stats) {
 	defer w.Close()
 	uploaded := map[string]bool{} // chunks stored by local upload and not deleted since
 	tainted := map[string]bool{}  // chunks of files that were uploaded while cached
+	unpinned := map[string]bool{} // chunks of uploaded files that were unpinned
 	for i, op := range c.Ops {
+		if op.K == "unpin" {
+			f := w.Files[op.F%len(w.Files)]
+			if f.Uploaded && f.Pinned {
+				st.classes["unpin-of-uploaded-file"] = true
+				if evid.Known(sigUnpinUploaded) && !witnessMode {
+					evid.Get(id).Excluded(sigUnpinUploaded)
+					continue
+				}
+				for a := range f.All {
+					unpinned[a] = true
+				}
+			}
+		}
 		if op.K == "upload" {
 			f := w.Files[op.F%len(w.Files)]
 			if f.Known && !f.Uploaded {
@@ -129,6 +147,9 @@ func run(c nlhist.Case) (sig string, err error, st stats) {
 					continue
 				}
 				if _, ok := storedAfter[a]; !ok {
+					if unpinned[a] {
+						return sigUnpinUploaded, fmt.Errorf("step %d gc(cap %d): chunk %s of an uploaded file that was pinned and unpinned was deleted", i, op.Arg, a), st
+					}
 					if tainted[a] {
 						return sigUpOverCache, fmt.Errorf("step %d gc(cap %d): chunk %s stored by an upload over an already cached file was deleted", i, op.Arg, a), st
 					}
@@ -157,7 +178,17 @@ func TestC12_GCKeepsPinnedAndUploaded(t *testing.T) {
 			r.Witness(sigUpOverCache)
 		}
 	}
-	evid.Checks(30)
+	if evid.Known(sigUnpinUploaded) {
+		wc := nlhist.Case{Files: []nodelite.FileSpec{{Tags: []int{1}}, {Tail: 9}},
+			Ops: []nlhist.Op{{K: "upload", F: 0, Flag: true}, {K: "unpin", F: 0}, {K: "gc", Arg: 1}}}
+		witnessMode = true
+		sg, err, _ := run(wc)
+		witnessMode = false
+		if err != nil && sg == sigUnpinUploaded {
+			r.Witness(sigUnpinUploaded)
+		}
+	}
+	evid.Checks(100)
 	rapid.Check(t, func(t *rapid.T) {
 		c := nlhist.Gen(t, nlhist.GenOptions{MaxFiles: 4, MaxOps: 16, Kinds: kinds})
 		// every history ends with an aggressive collection run so that eviction is actually exercised
